@@ -144,7 +144,7 @@ def rec(matches):
 
 def plan(tier, seed):
     n = 14 if tier == "quick" else 46
-    return [{"kind": "scale", "lengths": [255, 257, 1025, 4097, 16383, 16384]}, {"kind": "scale", "lengths": [16385, 20000, 32769]}, {"kind": "scale", "lengths": [65535, 65537] if tier == "quick" else [65535, 65537, 131073]}, {"kind": "shared", "n": 150 if tier == "quick" else 800}, {"kind": "shared", "n": 150 if tier == "quick" else 800}] + [{"kind": ["std", "ext", "ext"][i % 3], "n": 600 if tier == "quick" else 3000} for i in range(n)]
+    return [{"kind": "streams", "n": 250 if tier == "quick" else 2500}, {"kind": "scale", "lengths": [255, 257, 1025, 4097, 16383, 16384]}, {"kind": "scale", "lengths": [16385, 20000, 32769]}, {"kind": "scale", "lengths": [65535, 65537] if tier == "quick" else [65535, 65537, 131073]}, {"kind": "shared", "n": 150 if tier == "quick" else 800}, {"kind": "shared", "n": 150 if tier == "quick" else 800}] + [{"kind": ["std", "ext", "ext"][i % 3], "n": 600 if tier == "quick" else 3000} for i in range(n)]
 
 
 def install():
@@ -267,6 +267,56 @@ def run_scale(ctx, n, text, doc=None):
                        "findall_equal": a[1] == s[1]})
 
 
+STREAM_FORMS = ["text", "StringIO", "BytesIO utf-8", "BytesIO utf-8-sig", "BytesIO utf-16", "BytesIO utf-16-le", "BytesIO utf-16-be", "BytesIO utf-32", "BytesIO utf-32-be"]
+
+
+def stream_of(doc, form, raw):
+    """The document as JSON text / a text stream / a byte stream in a Unicode encoding (non-ASCII characters written
+    raw when `raw`; lone surrogates survive through surrogatepass, which is also how json reads bytes)."""
+    import io
+    import json
+
+    text = json.dumps(doc, ensure_ascii=not raw)
+    if form == "text":
+        return text
+    if form == "StringIO":
+        return io.StringIO(text)
+    return io.BytesIO(text.encode(form.split(" ", 1)[1], "surrogatepass"))
+
+
+def run_streams(ctx, n, fixed=None):
+    import jsonpath
+
+    env = jsonpath.DEFAULT_ENV
+    r = ctx.rng
+    for i in range(n):
+        if fixed:
+            text, doc = fixed
+        else:
+            text, docs = gen_case(r, r.choice(["std", "ext"]))
+            doc = docs[0]
+            if r.random() < 0.5:
+                doc = [doc, {"é": "ü\U0001f600", "lone": "\ud800x", "k": ["\udfff", "日本"]}]
+        if not isinstance(doc, (dict, list)) or not impl.call(env.compile, text).ok:
+            continue
+        want = sync_outcome(env, text, doc)
+        for form in STREAM_FORMS:
+            for raw in (False, True):
+                s = impl.call(lambda: sync_outcome(env, text, stream_of(doc, form, raw)))
+                a = impl.call(lambda: asyncio.run(async_outcome(env, text, stream_of(doc, form, raw))))
+                ctx.evaluation()
+                ctx.cell("document_forms", "%s%s" % (form, " raw" if raw else ""))
+                case = {"kind": "streams", "text": text, "doc": doc}
+                if not s.ok or not a.ok:
+                    continue   # the document could not be put in this form (un-encodable); nothing was compared
+                if a.value != s.value:
+                    ctx.violation("async-differs-from-sync-on-a-stream-document", case, {"text": text, "form": form, "raw_non_ascii": raw, "sync": repr(s.value[0])[:300], "async": repr(a.value[0])[:300]})
+                    return
+        ctx.case(h("streams", text, canon(doc)), want[0][0] == "raise" or bool(want[0][1]))
+        if fixed:
+            return
+
+
 def run(spec, ctx):
     import random
 
@@ -275,6 +325,9 @@ def run(spec, ctx):
     install()
     r = ctx.rng
     env = jsonpath.DEFAULT_ENV
+    if spec.get("kind") == "streams":
+        run_streams(ctx, spec["n"])
+        return
     if spec.get("kind") == "scale":
         for n in spec["lengths"]:
             doc = scale_doc(n)
@@ -403,6 +456,9 @@ def replay(case, ctx):
         return
     if case.get("kind") == "scale":
         run_scale(ctx, case["n"], case["text"])
+        return
+    if case.get("kind") == "streams":
+        run_streams(ctx, 1, fixed=(case["text"], case["doc"]))
         return
     env = jsonpath.DEFAULT_ENV
     doc = case["doc"]
